@@ -127,7 +127,7 @@ pub fn recip_terminating_digits(x: &BigUint) -> Option<u64> {
 }
 
 /// C12 oracle: sign, exactness when 1/x has <= p digits, |r - 1/x| < one unit of
-/// the p-th significant digit (unit taken in the larger of the decades of 1/x and r).
+/// the p-th significant digit of 1/x.
 /// Errors are returned as (kind, detail, err_units).
 pub fn reciprocal_check(x: &Dec, r: &Dec, p: u64) -> Result<RecipInfo, (String, String, f64)> {
     assert!(!x.is_zero());
@@ -140,8 +140,9 @@ pub fn reciprocal_check(x: &Dec, r: &Dec, p: u64) -> Result<RecipInfo, (String, 
     // 1/|x| in (10^-e, 10^(1-e)]  -> adjusted exponent 1-e (also when x is a power of ten: value 10^(1-e) has adjusted 2-e, exact case)
     let x_is_pow10 = x.canonical().int.magnitude().is_one();
     let adj_true = if x_is_pow10 { 2 - e } else { 1 - e };
-    let adj_r = r.adjusted();
-    let adj = adj_true.max(adj_r);
+    // the unit is that of the p-th digit of 1/x itself: a correctly or faithfully rounded result that
+    // lands on the next power of ten is still less than this unit away, so no widening is needed
+    let adj = adj_true;
     // unit = 10^(adj - p)
     // residual: 1 - r x
     let residual = Dec::one().sub(&r.mul(x));
